@@ -121,7 +121,7 @@ theorem pump_deliveries (fuel : Nat) (s : St) :
                 exact ⟨by omega, this.2⟩
             · simp only at h4; omega
           · rw [if_neg hup]
-            by_cases hmr : s.maxRetries ≠ 0
+            by_cases hmr : givesUpOf s.maxRetries s.giveUpOnRejection s.failStatus = true
             · rw [if_pos hmr]
               obtain ⟨D, h1, h2, h3, h4, _⟩ := ih { s with held := none, dropped := s.dropped ++ [(k, b)] }
               exact ⟨D, h1, h2, h3, h4, fun _ => hl⟩
@@ -211,23 +211,24 @@ theorem run_deliveries (s : St) (seg : List Op)
 
 structure Keep (s t : St) : Prop where
   mr : t.maxRetries = s.maxRetries
+  gu : t.giveUpOnRejection = s.giveUpOnRejection
   dropped : t.dropped = s.dropped
   und : t.decodable = s.decodable
 
-theorem Keep.rfl' (s : St) : Keep s s := ⟨rfl, rfl, rfl⟩
+theorem Keep.rfl' (s : St) : Keep s s := ⟨rfl, rfl, rfl, rfl⟩
 theorem Keep.trans' {a b c : St} (h2 : Keep b c) (h1 : Keep a b) : Keep a c :=
-  ⟨h2.mr.trans h1.mr, h2.dropped.trans h1.dropped, h2.und.trans h1.und⟩
+  ⟨h2.mr.trans h1.mr, h2.gu.trans h1.gu, h2.dropped.trans h1.dropped, h2.und.trans h1.und⟩
 
 theorem keep_flush (s : St) : Keep s (flushBatcher s) := by
   unfold flushBatcher
-  cases s.batcher <;> exact ⟨rfl, rfl, rfl⟩
+  cases s.batcher <;> exact ⟨rfl, rfl, rfl, rfl⟩
 
 theorem keep_feed (s : St) (g : Group) : Keep s (feedGroup s g) := by
   unfold feedGroup
   split
   · exact Keep.rfl' s
   · simp only
-    split <;> exact ⟨rfl, rfl, rfl⟩
+    split <;> exact ⟨rfl, rfl, rfl, rfl⟩
 
 theorem keep_foldl_feed (s : St) (gs : List Group) : Keep s (gs.foldl feedGroup s) := by
   induction gs generalizing s with
@@ -236,7 +237,7 @@ theorem keep_foldl_feed (s : St) (gs : List Group) : Keep s (gs.foldl feedGroup 
 
 theorem keep_applyEntry (s : St) (e : Entry) : Keep s (applyEntry s e) := by
   unfold applyEntry
-  exact Keep.trans' (keep_foldl_feed _ _) ⟨rfl, rfl, rfl⟩
+  exact Keep.trans' (keep_foldl_feed _ _) ⟨rfl, rfl, rfl, rfl⟩
 
 theorem keep_foldl_applyEntry (L : List Entry) (s : St) : Keep s (L.foldl applyEntry s) := by
   induction L generalizing s with
@@ -245,7 +246,7 @@ theorem keep_foldl_applyEntry (L : List Entry) (s : St) : Keep s (L.foldl applyE
 
 theorem keep_followerHwm (s : St) (n : Nat) : Keep s (followerHwm s n) := by
   unfold followerHwm
-  split <;> exact ⟨rfl, rfl, rfl⟩
+  split <;> exact ⟨rfl, rfl, rfl, rfl⟩
 
 theorem keep_foldl_followerHwm (l : List Nat) (s : St) : Keep s (l.foldl followerHwm s) := by
   induction l generalizing s with
@@ -255,7 +256,7 @@ theorem keep_foldl_followerHwm (l : List Nat) (s : St) : Keep s (l.foldl followe
 theorem keep_offerHwm (s : St) (n : Nat) : Keep s (offerHwm s n) := by
   unfold offerHwm
   split
-  · split <;> exact ⟨rfl, rfl, rfl⟩
+  · split <;> exact ⟨rfl, rfl, rfl, rfl⟩
   · exact keep_followerHwm s n
 
 @[simp] theorem flush_und (s : St) : (flushBatcher s).decodable = s.decodable := (keep_flush s).und
@@ -265,6 +266,13 @@ theorem keep_offerHwm (s : St) (n : Nat) : Keep s (offerHwm s n) := by
 @[simp] theorem foldl_followerHwm_und (l : List Nat) (s : St) : (l.foldl followerHwm s).decodable = s.decodable :=
   (keep_foldl_followerHwm l s).und
 @[simp] theorem offerHwm_und (s : St) (n : Nat) : (offerHwm s n).decodable = s.decodable := (keep_offerHwm s n).und
+@[simp] theorem flush_gu (s : St) : (flushBatcher s).giveUpOnRejection = s.giveUpOnRejection := (keep_flush s).gu
+@[simp] theorem applyEntry_gu (s : St) (e : Entry) : (applyEntry s e).giveUpOnRejection = s.giveUpOnRejection := (keep_applyEntry s e).gu
+@[simp] theorem foldl_applyEntry_gu (L : List Entry) (s : St) : (L.foldl applyEntry s).giveUpOnRejection = s.giveUpOnRejection :=
+  (keep_foldl_applyEntry L s).gu
+@[simp] theorem foldl_followerHwm_gu (l : List Nat) (s : St) : (l.foldl followerHwm s).giveUpOnRejection = s.giveUpOnRejection :=
+  (keep_foldl_followerHwm l s).gu
+@[simp] theorem offerHwm_gu (s : St) (n : Nat) : (offerHwm s n).giveUpOnRejection = s.giveUpOnRejection := (keep_offerHwm s n).gu
 @[simp] theorem flush_mr (s : St) : (flushBatcher s).maxRetries = s.maxRetries := (keep_flush s).mr
 @[simp] theorem flush_dr (s : St) : (flushBatcher s).dropped = s.dropped := (keep_flush s).dropped
 @[simp] theorem applyEntry_mr (s : St) (e : Entry) : (applyEntry s e).maxRetries = s.maxRetries := (keep_applyEntry s e).mr
@@ -285,8 +293,10 @@ theorem keep_stepCore (s : St) (op : Op) : Keep s (stepCore s op) := by
   · cases op <;> simp only [stepCore] <;> (repeat' split) <;> simp
   · cases op <;> simp only [stepCore] <;> (repeat' split) <;> simp
   · cases op <;> simp only [stepCore] <;> (repeat' split) <;> simp
+  · cases op <;> simp only [stepCore] <;> (repeat' split) <;> simp
 
-theorem pump_no_drop (fuel : Nat) (s : St) (h : s.maxRetries = 0) (hu : ∀ b, s.decodable b = true) :
+theorem pump_no_drop (fuel : Nat) (s : St) (h : s.maxRetries = 0) (hg : s.giveUpOnRejection = false)
+    (hu : ∀ b, s.decodable b = true) :
     Keep s (pump fuel s) := by
   induction fuel generalizing s with
   | zero => exact Keep.rfl' s
@@ -296,23 +306,23 @@ theorem pump_no_drop (fuel : Nat) (s : St) (h : s.maxRetries = 0) (hu : ∀ b, s
     · exact Keep.rfl' s
     · split
       · split
-        · exact Keep.trans' (ih _ h hu) ⟨rfl, rfl, rfl⟩
+        · exact Keep.trans' (ih _ h hg hu) ⟨rfl, rfl, rfl, rfl⟩
         · split
           · rename_i hbad; rw [hu] at hbad; cases hbad
           · split
-            · exact Keep.trans' (ih _ h hu) ⟨rfl, rfl, rfl⟩
+            · exact Keep.trans' (ih _ h hg hu) ⟨rfl, rfl, rfl, rfl⟩
             · split
-              · rename_i hmr; exact absurd h hmr
+              · rename_i hmr; simp [givesUpOf, h, hg] at hmr
               · exact Keep.rfl' s
       · split
         · exact Keep.rfl' s
         · split
-          · exact Keep.trans' (ih _ h hu) ⟨rfl, rfl, rfl⟩
-          · exact Keep.trans' (ih _ h hu) ⟨rfl, rfl, rfl⟩
+          · exact Keep.trans' (ih _ h hg hu) ⟨rfl, rfl, rfl, rfl⟩
+          · exact Keep.trans' (ih _ h hg hu) ⟨rfl, rfl, rfl, rfl⟩
 
 /-- with `transmitMaxRetries` unset and every stored item decodable no event is ever given up on -/
 theorem run_no_drop (s : St) (ops : List Op) (h : s.maxRetries = 0) (hd : s.dropped = [])
-    (hu : ∀ b, s.decodable b = true) :
+    (hu : ∀ b, s.decodable b = true) (hg : s.giveUpOnRejection = false := by rfl) :
     (run s ops).dropped = [] ∧ (run s ops).maxRetries = 0 := by
   induction ops generalizing s with
   | nil => exact ⟨hd, h⟩
@@ -320,12 +330,13 @@ theorem run_no_drop (s : St) (ops : List Op) (h : s.maxRetries = 0) (hd : s.drop
     unfold run
     have k1 := keep_stepCore s op
     have k2 := pump_no_drop (2 * (stepCore s op).fifo.items.length + 2) (stepCore s op) (by rw [k1.mr]; exact h)
-      (by rw [k1.und]; exact hu)
+      (by rw [k1.gu]; exact hg) (by rw [k1.und]; exact hu)
     have hs : stepOp s op = pump (2 * (stepCore s op).fifo.items.length + 2) (stepCore s op) := rfl
     apply ih
     · rw [hs, k2.mr, k1.mr]; exact h
     · rw [hs, k2.dropped, k1.dropped]; exact hd
     · rw [hs, k2.und, k1.und]; exact hu
+    · rw [hs, k2.gu, k1.gu]; exact hg
 
 /-! ### the ghost `maxIn` is exactly the highest HWM announced by another node -/
 
